@@ -147,6 +147,8 @@ pub struct Mock {
     /// number of transport calls made (for the hang watchdog)
     pub calls: u64,
     pub max_calls: u64,
+    /// the peer dropped the transport: once the inbound bytes are used up, reads see EOF
+    pub eof_when_empty: bool,
 }
 
 impl Default for Mock {
@@ -165,6 +167,7 @@ impl Default for Mock {
             all_wire: Vec::new(),
             calls: 0,
             max_calls: 10_000_000,
+            eof_when_empty: false,
         }
     }
 }
@@ -212,6 +215,10 @@ impl Read for Mock {
             RdEv::Data(k) => {
                 let avail = self.inbound.len() - self.rpos;
                 let n = k.min(buf.len()).min(avail);
+                if avail == 0 && self.eof_when_empty {
+                    self.log.push("r:e".into());
+                    return Ok(0);
+                }
                 if avail == 0 || k == 0 {
                     self.log.push("r:b".into());
                     return Err(io::Error::new(io::ErrorKind::WouldBlock, "no data"));
